@@ -159,8 +159,11 @@ Definition trivial_except (own : list N) (b : bind) : bool :=
   forallb (fun e => existsb (N.eqb (fst e)) own || trivial_entry e) b.
 Definition func_bind_own (own : list N) (nreq : nat) (ps : tys) (args : tys) : option bind :=
   match func_bind nreq ps args with Some b => if trivial_except own b then Some b else None | None => None end.
+(* only the callee's own generics are substituted into the return type: the (trivial) bindings of an enclosing function's
+   generics - possibly to the bottom type - leave the return type alone *)
+Definition restrict (own : list N) (b : bind) : bind := filter (fun e => existsb (N.eqb (fst e)) own) b.
 Definition call_type (own : list N) (nreq : nat) (ps : tys) (ret : ty) (args : tys) : option ty :=
-  match func_bind_own own nreq ps args with Some b => Some (resolve b ret) | None => None end.
+  match func_bind_own own nreq ps args with Some b => Some (resolve (restrict own b) ret) | None => None end.
 
 (* XCompoundSpec::bind for the raw struct name: one argument per field; undetermined generics are bottom *)
 Fixpoint fill_unknown (gens : list N) (b : bind) : bind :=
